@@ -819,7 +819,16 @@ func (e *Env) call(n *SCall) *Val {
 			s = uf.Name
 		}
 		if uf.ResT != nil {
-			return &Val{T: uf.ResT, S: s}
+			rv := &Val{T: uf.ResT, S: s}
+			// what an observation function returns exists already: its references
+			// are below the current allocation counter and it is well-formed
+			if !mentionsBound(s) {
+				for _, f := range vc.wfFacts(s, uf.ResT, 0) {
+					vc.assume(f)
+				}
+				vc.assumeRefsBelow(e.st, s, uf.ResT)
+			}
+			return rv
 		}
 		return &Val{T: uf.ResT, Srt: uf.ResSort, S: s}
 	}
